@@ -2,7 +2,7 @@ package c13
 
 // SCALE dimension for every place C13 generates a configuration.
 //
-// About one configuration in 40 is large: a threshold-adjacent NUMBER of hosts, headers
+// About one configuration in 45 is large: a threshold-adjacent NUMBER of hosts, headers
 // or URIs on the listener, a threshold-adjacent LENGTH of one string field, or a TOTAL
 // size of the packed block that lies right at 4096 / 8192 / 16384 / 65536 bytes (one field
 // padded so that the block ends a few bytes before, at, or after the boundary; which field
@@ -24,23 +24,29 @@ import (
 var scalePool = []int{63, 64, 65, 127, 128, 129, 255, 256, 257, 511, 512, 513, 999, 1000, 1001, 1023, 1024, 1025, 2047, 2048, 2049, 4095, 4096, 4097, 8191, 8192, 8193}
 
 type scaleLim struct {
-	MaxCount int // items in one list
+	MaxHosts int // hosts of one listener (HEAD asks the kernel for the interface table once per host: ~0.3 ms each)
+	MaxCount int // headers / URIs of one listener
 	MaxLen   int // characters of one string field
 	MaxTotal int // bytes of the packed block (bulk items are dropped / fields cut beyond it)
 }
 
 // limA: PatchConfig alone (sub-check a).  limBuild: everything that goes on to Build():
-// the block travels as one -DCONFIG_BYTES={0x..\,0x..} word of a `sh -c` command line
-// (6 characters a byte; one argument is limited to 128 KiB by the kernel), so those stay
-// below 16384+64 bytes.
+// there the block travels as one -DCONFIG_BYTES={0x..\,0x..} word of a `sh -c` command line
+// (6 characters a byte, built by repeated string concatenation; one argument is limited to
+// 128 KiB by the kernel), and Build() creates its compile directory before it packs the
+// block - a directory another process of this check may take for an abandoned one when it
+// stays empty for 3 s (seen on a machine with load 100 with blocks of 8 and 14 KB).  Those
+// builds therefore stay about as cheap as the ordinary ones: at most 4096+64 bytes.
 func limA() scaleLim {
 	if core.Tier() == "thorough" {
-		return scaleLim{MaxCount: 8193, MaxLen: 8193, MaxTotal: 1 << 20}
+		return scaleLim{MaxHosts: 1025, MaxCount: 8193, MaxLen: 8193, MaxTotal: 1 << 20}
 	}
-	return scaleLim{MaxCount: 1025, MaxLen: 8193, MaxTotal: 1 << 18}
+	return scaleLim{MaxHosts: 257, MaxCount: 1025, MaxLen: 8193, MaxTotal: 1 << 18}
 }
 
-func limBuild() scaleLim { return scaleLim{MaxCount: 513, MaxLen: 4097, MaxTotal: 16384 + 64} }
+func limBuild() scaleLim {
+	return scaleLim{MaxHosts: 65, MaxCount: 129, MaxLen: 2049, MaxTotal: 4096 + 64}
+}
 
 func poolUpTo(max int) []int {
 	var out []int
@@ -207,7 +213,7 @@ func applyScale(t *rapid.T, c *CaseA, lim scaleLim) {
 		}
 		switch kind {
 		case "hosts":
-			n := rapid.SampledFrom(poolUpTo(lim.MaxCount)).Draw(t, "scale-hosts")
+			n := rapid.SampledFrom(poolUpTo(lim.MaxHosts)).Draw(t, "scale-hosts")
 			style := rapid.SampledFrom([]string{"short", "short", "long", "mixed", "iface"}).Draw(t, "scale-host-style")
 			hl := rapid.SampledFrom([]int{63, 64, 65, 127, 128, 129, 252, 253}).Draw(t, "scale-host-len")
 			per := 4 + 2*20 + 4
